@@ -367,7 +367,18 @@ def utility_and_feasibility_contract(k, inst):
         k.ensures("arguments-are-model-variables-params-and-helpers", set(names) <= set(skel.variables) | {"params", "vf_arr", "state_indexer"} and "params" in names)
         vf_next = None
         if not is_last:
-            sizes = ([k.shape(indexers_n["state_indexer"]) and k.int("n_next_states", ge=1, le=3, size=True)] if lay.RS else []) + [skel.n_labels(v) for v in lay.DS] + [k.shape(im.grids[v])[0] for v in lay.CS]
+            if lay.RS and k.mode == "native":
+                # the real array of period t+1 has one row per feasible restricted-state combination
+                import numpy as np
+
+                n_rows = int(np.max(np.asarray(indexers_n["state_indexer"]))) + 1
+                k.inputs["n_next_states"] = n_rows
+                head = [n_rows]
+            elif lay.RS:
+                head = [k.shape(indexers_n["state_indexer"]) and k.int("n_next_states", ge=1, le=3, size=True)]
+            else:
+                head = []
+            sizes = head + [skel.n_labels(v) for v in lay.DS] + [k.shape(im.grids[v])[0] for v in lay.CS]
             vf_next = k.array("V_next", sizes, "float", values=[0.0, 1.0, 2.0, -1.0, 0.5])
         kwargs = {}
         for nme in names:
